@@ -46,6 +46,30 @@ B = {
   end do
   !$acc end parallel loop
 """,
+    'code-after-return': """
+  do i=1,n
+    w(i) = x(i) + y
+  end do
+  if (k > 100) then
+    k = 0
+    return
+    k = -1
+  end if
+  !$loki before-second
+  do i=1,n
+    x(i) = w(i)*2.0
+  end do
+  return
+  !$loki data
+  !$acc parallel loop
+  do i=1,n
+    x(i) = -x(i)
+  end do
+  !$loki end data
+  !$loki tail-call
+  call sub1(n, x)
+  k = k - 1
+""",
     'branches-loops': """
   do i=1,n
     w(i) = x(i)
